@@ -137,12 +137,33 @@ Inductive csteps : cfg -> cfg -> Prop :=
 | cs_step cf cf1 cf2 : cstep cf cf1 -> csteps cf1 cf2 -> csteps cf cf2.
 
 (* ---------- typing ---------- *)
+(* what a thread may run while its handle is lent (&handle is shared, so no &mut method on it): on the shared buffer it
+   only reads, reads the header and clones; anything on its private buffers *)
+Fixpoint ro (c : cmd unit) : Prop :=
+  match c with
+  | Ret _ | Unreachable => True
+  | Alloc _ k => forall x, ro (k x)
+  | Realloc b _ _ k => b <> b0 /\ forall ok, ro (k ok)
+  | Dealloc b _ k => b <> b0 /\ ro k
+  | HdrInit b _ k => b <> b0 /\ ro k
+  | HdrCap _ k => forall v, ro (k v)
+  | Rmw b true _ k => forall v, ro (k v)
+  | Rmw b false _ k => b <> b0 /\ forall v, ro (k v)
+  | Load b _ k => b <> b0 /\ forall v, ro (k v)
+  | Fence _ k => ro k
+  | Read _ _ _ k => forall bs, ro (k bs)
+  | Write (PHeap b) _ _ k => b <> b0 /\ ro k
+  | Write (PStatic _) _ _ k => ro k
+  | Move (PHeap b) _ _ _ k => b <> b0 /\ ro k
+  | Move (PStatic _) _ _ _ k => ro k
+  end.
+
 (* [lent]: the scoped threads currently borrowing from this thread; while there are any, the thread only lends again,
-   joins, and waits (thread::scope blocks its caller until the scoped threads are done) *)
+   joins, and runs read-only operations ([ro]) *)
 Fixpoint prog_ok (lent : list nat) (ps : list pitem) (g : ghost) : Prop :=
   match ps with
   | [] => lent = [] /\ g_refs g b0 = 0%nat /\ g_free g b0 = false      (* a thread ends holding nothing and owing nothing *)
-  | POp c :: r => lent = [] /\ okc c g (fun _ g' => prog_ok [] r g')
+  | POp c :: r => (lent = [] \/ ro c) /\ okc c g (fun _ g' => prog_ok lent r g')
   | PSpawn ch k :: r => lent = [] /\ (k <= g_refs g b0)%nat /\ kof ch = k /\ bof ch = false /\ prog_ok [] r (g_give g k)
   | PJoin ch :: r => prog_ok lent r g
   | PLend ch :: r => (0 < g_refs g b0)%nat /\ g_bor g b0 = false /\ bof ch = true /\ prog_ok (ch :: lent) r (g_lendout g)
@@ -158,7 +179,7 @@ Record WT (cf : cfg) : Prop := {
   wt_started : forall t, t < length (tc cf) -> started (getth (ms cf) t) = true ->
       agree (getth (ms cf) t) (gh (gettc cf t))
       /\ okc (cur (gettc cf t)) (gh (gettc cf t)) (fun _ g' => prog_ok (lt (gettc cf t)) (rest (gettc cf t)) g')
-      /\ (lt (gettc cf t) <> [] -> cur (gettc cf t) = Ret tt)
+      /\ (lt (gettc cf t) <> [] -> ro (cur (gettc cf t)))
       /\ (g_bor (gh (gettc cf t)) b0 = true -> lend (getth (ms cf) t) <> 0 \/ finished (gettc cf t));
   wt_unstarted : forall t, t < length (tc cf) -> started (getth (ms cf) t) = false ->
       cur (gettc cf t) = Ret tt /\ gh (gettc cf t) = g_init t /\ lt (gettc cf t) = []
@@ -298,6 +319,10 @@ Qed.
 Lemma estep_bor t s c g s' c' g' : estep t s c g s' c' g' -> g_bor g' = g_bor g.
 Proof. intros H. destruct H; reflexivity. Qed.
 
+(* the continuation of a read-only command is read-only *)
+Lemma ro_estep t s c g s' c' g' : estep t s c g s' c' g' -> ro c -> ro c'.
+Proof. intros H R. destruct H; cbn [ro] in R; try (destruct R as (_ & R)); auto. Qed.
+
 (* ---------- configurations ---------- *)
 Lemma gettc_upd_eq cf t x s' : t < length (tc cf) -> gettc {| ms := s'; tc := upd (tc cf) t x |} t = x.
 Proof. intros H. unfold gettc. cbn [tc]. apply nth_upd_eq. exact H. Qed.
@@ -308,7 +333,7 @@ Lemma WT_update cf s' t x :
   WT cf -> Inv s' -> length (ths s') = length (ths (ms cf)) -> t < length (tc cf) ->
   started (getth s' t) = true -> agree (getth s' t) (gh x) ->
   okc (cur x) (gh x) (fun _ g' => prog_ok (lt x) (rest x) g') ->
-  (lt x <> [] -> cur x = Ret tt) ->
+  (lt x <> [] -> ro (cur x)) ->
   (g_bor (gh x) b0 = true -> lend (getth s' t) <> 0 \/ finished x) ->
   (forall u, u <> t ->
      (* untouched *)
@@ -371,11 +396,8 @@ Proof.
   - (* an event *)
     destruct (W3 t Ht Hst) as (Hag & Hok & Hlt & Hbor).
     destruct (estep_sound t _ _ _ _ _ _ _ W1 Hst Hag Hok He) as (I' & Hok' & Hag' & Hlen & Hst' & Hoth & Hld).
-    assert (Hnil : lt (gettc cf t) = []).
-    { destruct (lt (gettc cf t)) eqn:E; [reflexivity|]. exfalso. assert (Hc : cur (gettc cf t) = Ret tt) by (apply Hlt; discriminate).
-      rewrite Hc in He. inversion He. }
     apply WT_update; [exact W|exact I'|exact Hlen|exact Ht|exact Hst'|exact Hag'|cbn [cur gh lt rest]; exact Hok'| | | | |].
-    + cbn [lt]. rewrite Hnil. intros Hx. contradiction.
+    + cbn [lt cur]. intros Hx. eapply ro_estep; [exact He|apply Hlt; exact Hx].
     + cbn [gh]. rewrite (estep_bor _ _ _ _ _ _ _ He). rewrite Hld. intros Hb. destruct (Hbor Hb) as [Hl|(Hf & _)]; [left; exact Hl|].
       rewrite Hf in He. inversion He.
     + intros u Hu. left. apply Hoth. exact Hu.
@@ -385,8 +407,8 @@ Proof.
   - (* next operation *)
     destruct (W3 t Ht Hst) as (Hag & Hok & Hlt & Hbor). rewrite Hc, Hr in Hok. cbn [okc prog_ok] in Hok. destruct Hok as (Hnil & Hok).
     apply WT_update; [exact W|exact W1|reflexivity|exact Ht|exact Hst|exact Hag| | | | | |].
-    + cbn [cur gh lt rest]. rewrite Hnil. exact Hok.
-    + cbn [lt]. rewrite Hnil. intros Hx. contradiction.
+    + cbn [cur gh lt rest]. exact Hok.
+    + cbn [lt cur]. intros Hx. destruct Hnil as [Hnil|Hro]; [contradiction|exact Hro].
     + cbn [gh]. intros Hb. destruct (Hbor Hb) as [Hl|(_ & Hf)]; [left; exact Hl|]. rewrite Hr in Hf. discriminate.
     + intros u Hu. left. reflexivity.
     + eapply unstarted_same; [exact W|reflexivity|]. auto.
@@ -428,7 +450,7 @@ Proof.
     + eapply pres; eauto.
     + cbn [gh]. eapply agree_same_local; eauto.
     + cbn [cur gh lt rest okc]. exact Hok.
-    + cbn [lt cur]. intros _. reflexivity.
+    + cbn [lt cur ro]. intros _. exact I.
     + cbn [gh]. rewrite Hlendt. intros Hb. destruct (Hbor Hb) as [Hl|(_ & Hf)]; [left; exact Hl|]. rewrite Hr in Hf. discriminate.
     + intros u Hu. left. apply Hoth; [exact Hu|]. cbn [second]. discriminate.
     + eapply unstarted_same; [exact W|exact Hlen|]. intros u Hu. split; [|apply Hld].
@@ -446,7 +468,7 @@ Proof.
       rewrite !setf_eq. rewrite R1, R2, R3, R4. split; [exact A1|]. split; [reflexivity|]. split; [exact A3|].
       intros Hf. eapply cle_trans; [apply A4; exact Hf|exact R5].
     + cbn [cur gh lt rest okc]. exact Hrest.
-    + cbn [cur]. intros _. reflexivity.
+    + cbn [cur ro]. intros _. exact I.
     + cbn [gh]. unfold g_lendout. cbn [g_bor]. rewrite Hnb. discriminate.
     + intros u Hu. destruct (Nat.eq_dec u ch) as [->|Hne].
       * right. left. split; [exact Hsc|]. split; [exact L1|]. unfold g_init. rewrite Hbof. split.
@@ -486,7 +508,7 @@ Proof.
     + eapply pres; eauto.
     + cbn [gh]. eapply agree_same_local; eauto.
     + cbn [cur gh lt rest okc]. exact Hrest.
-    + cbn [cur]. intros _. reflexivity.
+    + cbn [cur ro]. intros _. exact I.
     + cbn [gh]. rewrite Hlendt. intros Hb. destruct (Hbor Hb) as [Hl|(_ & Hf)]; [left; exact Hl|]. rewrite Hr in Hf. discriminate.
     + intros u Hu. destruct (Nat.eq_dec u ch) as [->|Hne].
       * right. right. split; [exact Hsch|]. split; [rewrite B6; exact Hsch|]. split; [exact Hfin|].
@@ -635,18 +657,22 @@ Theorem typed_progress cf t :
 Proof.
   intros [W1 W2 W3 W4 W5] Ht Hst Hev. destruct (W3 t Ht Hst) as (Hag & Hok & Hlt & Hbor).
   assert (Ht' : t < length (ths (ms cf))) by congruence.
-  assert (Hnil : lt (gettc cf t) = []).
-  { destruct (lt (gettc cf t)) eqn:E; [reflexivity|]. exfalso. rewrite Hlt in Hev by discriminate. exact Hev. }
-  assert (Hlf : lends_from (ms cf) t = false).
-  { apply noborrowers_lends_from. intros u Hu. apply (proj1 (W5 u t)) in Hu. destruct Hu as (_ & Hin). rewrite Hnil in Hin. exact Hin. }
+  (* either nobody borrows from t, or t is running a read-only command (which never needs the right to write, release
+     or probe the shared buffer) *)
+  assert (Hlf : lends_from (ms cf) t = false \/ ro (cur (gettc cf t))).
+  { destruct (lt (gettc cf t)) eqn:E.
+    - left. apply noborrowers_lends_from. intros u Hu. apply (proj1 (W5 u t)) in Hu. destruct Hu as (_ & Hin). rewrite E in Hin. exact Hin.
+    - right. apply Hlt. discriminate. }
   assert (Hbl : g_bor (gh (gettc cf t)) b0 = true -> lend (getth (ms cf) t) <> 0).
   { intros Hb. destruct (Hbor Hb) as [Hl|(Hf & _)]; [exact Hl|]. rewrite Hf in Hev. contradiction. }
   set (s := ms cf) in *. set (g := gh (gettc cf t)) in *.
-  destruct (cur (gettc cf t)) as [r| |n k|b o n k|b n k|b c k|b k|b a o k|b o k|o k|p off n k|p off bs k|p x y n k];
+  revert Hlf Hev Hok. generalize (cur (gettc cf t)). intros c0 Hlf Hev Hok.
+  destruct c0 as [r| |n k|b o n k|b n k|b c k|b k|b a o k|b o k|o k|p off n k|p off bs k|p x y n k];
     cbn [is_event okc] in *; try contradiction.
   - (* alloc *) do 3 eexists. apply S_alloc_none.
   - (* realloc *) destruct Hok as (He & _). destruct (Nat.eq_dec b b0) as [->|Hne].
-    + destruct (ok_write s t W1 Ht' Hst) as (s' & E); [destruct Hag as (_ & A2 & _); congruence|exact Hlf|].
+    + destruct Hlf as [Hlf|Hro]; [|cbn [ro] in Hro; destruct Hro as (Hro & _); contradiction].
+      destruct (ok_write s t W1 Ht' Hst) as (s' & E); [destruct Hag as (_ & A2 & _); congruence|exact Hlf|].
       exists s', (k true), g. apply S_realloc. exact E.
     + exists s, (k true), g. apply S_realloc_o. exact Hne.
   - (* dealloc *) destruct Hok as (Hf & Hfen & _). destruct (Nat.eq_dec b b0) as [->|Hne].
@@ -654,7 +680,8 @@ Proof.
       destruct (ok_free s t W1 Ht' Hst) as (s' & E); [congruence|auto|]. do 3 eexists. apply S_dealloc. exact E.
     + do 3 eexists. apply S_dealloc_o. exact Hne.
   - (* hdr init *) destruct Hok as (He & _). destruct (Nat.eq_dec b b0) as [->|Hne].
-    + destruct (ok_write s t W1 Ht' Hst) as (s' & E); [destruct Hag as (_ & A2 & _); congruence|exact Hlf|].
+    + destruct Hlf as [Hlf|Hro]; [|cbn [ro] in Hro; destruct Hro as (Hro & _); contradiction].
+      destruct (ok_write s t W1 Ht' Hst) as (s' & E); [destruct Hag as (_ & A2 & _); congruence|exact Hlf|].
       do 3 eexists. apply S_hdrinit. exact E.
     + do 3 eexists. apply S_hdrinit_o. exact Hne.
   - (* hdr cap *) destruct Hok as (Hr & _). destruct (Nat.eq_dec b b0) as [->|Hne].
@@ -667,11 +694,13 @@ Proof.
         -- destruct (ok_cloneb s t W1 Ht' Hst (Hbl Hb)) as (s' & E). do 3 eexists. apply S_inc_b. exact E.
       * exists s, (k 0%N), (g_inc g b). apply S_inc_o. exact Hne.
     + destruct Hok as (Hr & Hf & _). destruct (Nat.eq_dec b b0) as [->|Hne].
-      * destruct Hag as (A1 & _ & A3 & _). destruct (ok_release s t W1 Ht' Hst) as (s' & E); [lia|congruence|exact Hlf|].
+      * destruct Hlf as [Hlf|Hro]; [|cbn [ro] in Hro; destruct Hro as (Hro & _); contradiction].
+        destruct Hag as (A1 & _ & A3 & _). destruct (ok_release s t W1 Ht' Hst) as (s' & E); [lia|congruence|exact Hlf|].
         do 3 eexists. apply S_dec. exact E.
       * exists s, (k 0%N), (g_dec g b 0%N). apply S_dec_o. exact Hne.
   - (* load *) destruct Hok as (Hr & _). destruct (Nat.eq_dec b b0) as [->|Hne].
-    + destruct Hag as (A1 & _). destruct (ok_probe0 s t W1 Ht' Hst) as (s' & m & Hm & E); [lia|exact Hlf|].
+    + destruct Hlf as [Hlf|Hro]; [|cbn [ro] in Hro; destruct Hro as (Hro & _); contradiction].
+      destruct Hag as (A1 & _). destruct (ok_probe0 s t W1 Ht' Hst) as (s' & m & Hm & E); [lia|exact Hlf|].
       do 3 eexists. eapply S_load; eauto.
     + exists s, (k 0%N), (g_load g b 0%N). apply S_load_o. exact Hne.
   - (* fence *) destruct (acq o) eqn:Ha.
@@ -683,11 +712,13 @@ Proof.
       * exists s, (k []), g. apply S_read_o. exact Hne.
     + exists s, (k []), g. apply S_read_static.
   - (* write *) destruct p as [b|sid]; [|contradiction]. destruct Hok as (He & _). destruct (Nat.eq_dec b b0) as [->|Hne].
-    + destruct (ok_write s t W1 Ht' Hst) as (s' & E); [destruct Hag as (_ & A2 & _); congruence|exact Hlf|].
+    + destruct Hlf as [Hlf|Hro]; [|cbn [ro] in Hro; destruct Hro as (Hro & _); contradiction].
+      destruct (ok_write s t W1 Ht' Hst) as (s' & E); [destruct Hag as (_ & A2 & _); congruence|exact Hlf|].
       do 3 eexists. apply S_write. exact E.
     + do 3 eexists. apply S_write_o. exact Hne.
   - (* move *) destruct p as [b|sid]; [|contradiction]. destruct Hok as (He & _). destruct (Nat.eq_dec b b0) as [->|Hne].
-    + destruct (ok_write s t W1 Ht' Hst) as (s' & E); [destruct Hag as (_ & A2 & _); congruence|exact Hlf|].
+    + destruct Hlf as [Hlf|Hro]; [|cbn [ro] in Hro; destruct Hro as (Hro & _); contradiction].
+      destruct (ok_write s t W1 Ht' Hst) as (s' & E); [destruct Hag as (_ & A2 & _); congruence|exact Hlf|].
       do 3 eexists. apply S_move. exact E.
     + do 3 eexists. apply S_move_o. exact Hne.
 Qed.
